@@ -6,6 +6,7 @@ import (
 	"bytes"
 	"context"
 	"fmt"
+	"strings"
 	"sync"
 	"testing"
 	"time"
@@ -52,10 +53,24 @@ func TestVerif_C40_Race(t *testing.T) {
 		Exchange(s, "exch", vfOutSchema, vfInSchema, func(ctx context.Context, cc *CallContext, p VfXParams) (*StreamResult, error) {
 			return &StreamResult{OutputSchema: vfOutSchema, State: &vfRaceExch{}}, nil
 		})
+		Unary(s, "big", func(ctx context.Context, cc *CallContext, p VfXParams) (string, error) {
+			return strings.Repeat("x", 4096), nil // above the externalisation threshold
+		})
+		// odd rounds run with every optional feature of the statement's list switched on
+		full := round%2 == 1
+		if full {
+			s.SetExternalLocation(&ExternalLocationConfig{Storage: &vfRaceStore{}, ExternalizeThresholdBytes: 1024})
+		}
 		h := NewHttpServer(s)
 		h.EnableSticky(time.Minute)
 		h.SetCorsOrigins("*")
 		h.SetProducerBatchLimit(1)
+		if full {
+			h.SetStickyEchoHeaders(map[string]string{"fly-force-instance-id": "i-1", "x-route-to": "a", "x-zone": "z"})
+			_ = h.SetCompressionLevel(2)
+			h.SetMaxRequestBytes(1 << 20)
+			h.SetMaxResponseBytes(1 << 20)
+		}
 		var wg sync.WaitGroup
 		codes := make([]int, len(mix))
 		for i, k := range mix {
@@ -72,6 +87,12 @@ func TestVerif_C40_Race(t *testing.T) {
 				case "unary":
 					rec, _ := vfArrowPost(h, "/u", vfXReq("u", int64(i)), "Accept-Encoding", "zstd")
 					codes[i] = rec.Code
+					if full && i%2 == 1 {
+						rec2, _ := vfArrowPost(h, "/big", vfXReq("big", int64(i)), "Accept-Encoding", "gzip")
+						if rec2.Code != 200 {
+							codes[i] = rec2.Code
+						}
+					}
 				case "describe-page":
 					rec, _ := vfHTTP(h, "GET", "/describe", nil)
 					codes[i] = rec.Code
@@ -133,6 +154,19 @@ func (p *vfRaceExch) Exchange(ctx context.Context, in arrow.RecordBatch, out *Ou
 func init() {
 	RegisterStateType(&vfRaceProd{})
 	RegisterStateType(&vfRaceExch{})
+}
+
+// vfRaceStore is a goroutine-safe in-memory ExternalStorage.
+type vfRaceStore struct {
+	mu sync.Mutex
+	n  int
+}
+
+func (st *vfRaceStore) Upload(data []byte, schema *arrow.Schema, contentEncoding string) (string, error) {
+	st.mu.Lock()
+	defer st.mu.Unlock()
+	st.n++
+	return fmt.Sprintf("https://mem.test/race/%d", st.n), nil
 }
 
 type lockedBuffer struct {
